@@ -1750,10 +1750,10 @@ impl Inj<'_> {
                 }
                 let (si, name) = *self.rng.pick(&cands);
                 let t = sites[si].ty;
-                let (ty, idx) = t.find_sub_element(name, u32::MAX)?;
-                if t.get_sub_element_version_mask(&idx)? & (ver as u32) != 0 {
-                    return None;
-                }
+                // (the version mask comes from the listing `sub_element_spec_iter` alone: asking `get_sub_element_version_mask` again
+                // here would make the injection depend on the very lookup the parser uses - a change of that lookup then silently
+                // disabled this class, seed C08_5)
+                let (ty, _idx) = t.find_sub_element(name, u32::MAX)?;
                 let c = self.minimal(name, ty);
                 let n = node_at_mut(&mut doc.root, &sites[si].path);
                 let p = insert_pos(self.rng, n);
